@@ -172,6 +172,9 @@ def run_scripted(cfg, script, max_attempts=120):
         msg = str(e)
     except TooLong:
         outcome = 'TooLong'
+    except Exception as e:          # anything else the real code raises is reported with this input
+        outcome = 'other:' + type(e).__name__
+        msg = str(e)[:300]
     finally:
         script.lookup = orig
         logging.disable(logging.NOTSET)
@@ -309,6 +312,8 @@ def impl_view(res):
         out = (1, 0)
     elif res['outcome'] == 'TooLong':
         out = (2, 0)                 # the model runs out of script
+    elif res['outcome'].startswith('other:'):
+        out = (8, 0)
     else:
         out = (9, 0)
     return blocks, out
@@ -542,6 +547,9 @@ def scripted_oracle(cfg, script, res):
         return cfg.get('beta', 0.9) * p[2] * (cfg['e_tol'] / e['err']) ** (1.0 / maxiter)
 
     blocks = res['blocks'][:res['attempts']] if res['outcome'] == 'TooLong' else res['blocks']
+    if res['outcome'].startswith('other:'):
+        return [('run_progress', {'what': 'the run raised %s: %s (neither finished nor ConvergenceError)' % (res['outcome'][6:], res['msg'])},
+                 {'kind': 'unexpected-exception', 'type': res['outcome'][6:]})]
     bad = oracle(blocks, res['outcome'], res['uend'], P, own=own, proposal=proposal, requested=requested)
     # the raise itself: exactly when the budget is exhausted, crash is on and the first step asks again
     for a, b in enumerate(blocks):
@@ -802,9 +810,24 @@ def real_runs(ck, report):
     plan = [('embedded', 36 if thorough else 12), ('rk', 16 if thorough else 5),
             ('polynomial', 16 if thorough else 5), ('extrapolation', 12 if thorough else 4)]
     stats = {}
-    for kind, n in plan:
-        for _ in range(n):
-            spec = gen_real_spec(rng, kind)
+    # a fixed, unscripted history in which a block is restarted from a middle slot while the Tend cap binds
+    pinned = {'problem': 'vdp', 'sweeper': 'sdc', 'adaptivity': 'Adaptivity', 'num_procs': 3, 'maxiter': 3, 'dt0': 0.001,
+              'Tend': 2.4735193769657835, 'adaptivity_params': {'e_tol': 1e-06}}
+    # fixed histories that go through trigger_restart_upon_nonconvergence (dt / factor_if_not_converged)
+    nonconv = [
+        {'problem': 'vdp', 'sweeper': 'sdc', 'adaptivity': 'AdaptivityPolynomialError', 'num_procs': 1, 'maxiter': 4, 'dt0': 0.2,
+         'restol': 1e-7, 'num_nodes': 3, 'QI': 'IE', 'Tend': 1.0, 'adaptivity_params': {'e_tol': 1e-5}},
+        {'problem': 'lorenz', 'sweeper': 'sdc', 'adaptivity': 'AdaptivityPolynomialError', 'num_procs': 1, 'maxiter': 4, 'dt0': 0.1,
+         'restol': 1e-7, 'num_nodes': 3, 'QI': 'IE', 'Tend': 0.5, 'adaptivity_params': {'e_tol': 1e-5, 'dt_min': 1e-3}},
+        {'problem': 'vdp', 'sweeper': 'sdc', 'adaptivity': 'AdaptivityExtrapolationWithinQ', 'num_procs': 1, 'maxiter': 4, 'dt0': 0.2,
+         'restol': 1e-7, 'num_nodes': 3, 'QI': 'IE', 'Tend': 1.0, 'err_keys': ('error_extrapolation_estimate',),
+         'adaptivity_params': {'e_tol': 1e-5}}]
+    todo = [('embedded-pinned', pinned)] + [('nonconvergence-pinned', sp) for sp in nonconv] + \
+           [(kind, None) for kind, n in plan for _ in range(n)]
+    for kind, spec in todo:
+        if True:
+            if spec is None:
+                spec = gen_real_spec(rng, kind)
             res = run_real(spec)
             nrej = sum(1 for b in res['blocks'] if any(p[4] for p in b['post']))
             nacc = sum(1 for b in res['blocks'] for p in b['post'] if not p[4])
